@@ -14,8 +14,15 @@
  *    number of times and may reject O_CLOEXEC once (EINVAL fallback of ldb_try_open).
  *
  * POSIX rule (fcntl(2), "record locks are released when ANY descriptor of the file is closed by the
- * process"): with -DLOCK_POSIX_CLOSE_RULE the close(2) model asserts that no descriptor of a file
- * whose identity is in the lock table is closed.  That obligation is the unit lock.posix.
+ * process"): the close(2) model asserts that no descriptor of a file whose identity is in the lock
+ * table is ever closed (the first holder would silently lose its lock).  This obligation FAILED on
+ * the tree before commit 1543e1f (the busy path opened the LOCK file, found its identity in the
+ * table and closed the descriptor; native reproducer replay/native/f7_lock_lost_after_refused_open.c) and holds since the
+ * table is consulted through stat(2) before the file is opened.
+ *
+ * stat(2) model: the LOCK file either exists (g_exists) with identity (g_dev,g_ino) - the same file
+ * open(2) will return - or does not exist; stat fails exactly when it does not exist.  A file whose
+ * identity is in the table exists.
  */
 #include "verif.h"
 #include <errno.h>
@@ -29,17 +36,62 @@ int nondet_int(void);
 unsigned long nondet_ulong(void);
 
 /* ------------------------------------------------------------------ ghost */
-int g_errno;
-int g_fd_new;                 /* the descriptor open(2) hands out                                  */
-unsigned long g_dev, g_ino;   /* identity of the file behind it                                    */
-int g_in_table;               /* (g_dev,g_ino) is in file_set                                      */
-int g_os_locked;              /* this process holds the record lock on that file                   */
-int g_fm_held; unsigned g_fm_locks, g_fm_unlocks;
-unsigned g_open_calls, g_open_ok, g_fstat_calls, g_fstat_ok, g_setlk_calls, g_setlk_ok, g_unlk_calls, g_unlk_ok;
-unsigned g_closes, g_has_calls, g_puts, g_puts_other, g_dels, g_dels_other, g_mallocs, g_frees;
-unsigned g_eintr_budget, g_einval_budget;
-const void *g_put_ptr; void *g_freed_ptr;
-unsigned long g_clock, g_t_has, g_t_setlk, g_t_put, g_t_del, g_t_unlk, g_t_close;
+/* all ghost state lives in one object (a single assigns target keeps dfcc's write-set checks small) */
+struct lock_ghost {
+  int errno_;
+  int fd_new;                 /* the descriptor open(2) hands out                                  */
+  unsigned long dev, ino;     /* identity of the file behind it                                    */
+  int in_table;               /* (dev,ino) is in file_set                                          */
+  int exists;                 /* the LOCK file exists before the call                              */
+  int os_locked;              /* this process holds the record lock on that file                   */
+  int fm_held; unsigned fm_locks, fm_unlocks;
+  unsigned stat_calls, has_pre, has_fd;   /* stat(2) calls; table look-ups before open / on the opened descriptor's identity */
+  unsigned open_calls, open_ok, fstat_calls, fstat_ok, setlk_calls, setlk_ok, unlk_calls, unlk_ok;
+  unsigned closes, has_calls, puts, puts_other, dels, dels_other, mallocs, frees;
+  unsigned eintr_budget, einval_budget;
+  const void *put_ptr; void *freed_ptr;
+  unsigned long clock, t_has, t_setlk, t_put, t_del, t_unlk, t_close;
+} G;
+#define g_errno G.errno_
+#define g_fd_new G.fd_new
+#define g_dev G.dev
+#define g_ino G.ino
+#define g_in_table G.in_table
+#define g_exists G.exists
+#define g_os_locked G.os_locked
+#define g_fm_held G.fm_held
+#define g_fm_locks G.fm_locks
+#define g_fm_unlocks G.fm_unlocks
+#define g_stat_calls G.stat_calls
+#define g_has_pre G.has_pre
+#define g_has_fd G.has_fd
+#define g_open_calls G.open_calls
+#define g_open_ok G.open_ok
+#define g_fstat_calls G.fstat_calls
+#define g_fstat_ok G.fstat_ok
+#define g_setlk_calls G.setlk_calls
+#define g_setlk_ok G.setlk_ok
+#define g_unlk_calls G.unlk_calls
+#define g_unlk_ok G.unlk_ok
+#define g_closes G.closes
+#define g_has_calls G.has_calls
+#define g_puts G.puts
+#define g_puts_other G.puts_other
+#define g_dels G.dels
+#define g_dels_other G.dels_other
+#define g_mallocs G.mallocs
+#define g_frees G.frees
+#define g_eintr_budget G.eintr_budget
+#define g_einval_budget G.einval_budget
+#define g_put_ptr G.put_ptr
+#define g_freed_ptr G.freed_ptr
+#define g_clock G.clock
+#define g_t_has G.t_has
+#define g_t_setlk G.t_setlk
+#define g_t_put G.t_put
+#define g_t_del G.t_del
+#define g_t_unlk G.t_unlk
+#define g_t_close G.t_close
 static unsigned long tick(void) { __CPROVER_assume(g_clock < (1ul << 40)); return ++g_clock; }
 
 int *__errno_location(void) { return &g_errno; }
@@ -58,6 +110,13 @@ int open(const char *name, int flags, ...) {
   }
   g_open_ok++;
   return g_fd_new;
+}
+int stat(const char *name, struct stat *st) {
+  __CPROVER_assert(g_fm_held && g_open_calls == 0, "the LOCK file's identity is looked up by name under the file mutex, before it is opened");
+  g_stat_calls++;
+  if (!g_exists) { g_errno = ENOENT; return -1; }
+  st->st_dev = g_dev; st->st_ino = g_ino;
+  return 0;
 }
 int fstat(int fd, struct stat *st) {
   __CPROVER_assert(fd == g_fd_new && g_open_ok == 1, "fstat on the descriptor just opened");
@@ -91,9 +150,7 @@ int fcntl(int fd, int cmd, ...) {
 int close(int fd) {
   __CPROVER_assert(fd == g_fd_new, "close(2) goes to the LOCK file's descriptor");
   __CPROVER_assert(g_closes == 0, "the descriptor is closed at most once");
-#ifdef LOCK_POSIX_CLOSE_RULE
   __CPROVER_assert(!g_in_table, "close(2) is never called on a descriptor of a file whose identity is in the lock table (POSIX: closing ANY descriptor of a file releases the process's record locks on it - the first holder would lose its lock)");
-#endif
   g_closes++; g_t_close = tick();
   g_os_locked = 0;              /* POSIX: all record locks of the process on this file are gone */
   return nondet_int() ? -1 : 0;
@@ -113,7 +170,12 @@ void ldb_mutex_unlock(ldb_mutex_t *m) { __CPROVER_assert(m == &file_mutex && g_f
 #define IS_ID(item) (((const ldb_fileid_t *)(item))->dev == g_dev && ((const ldb_fileid_t *)(item))->ino == g_ino)
 int ldb_rb_set_has(const rb_tree_t *tree, const void *item) {
   __CPROVER_assert(tree == &file_set && g_fm_held, "the lock table is consulted under the file mutex");
-  if (IS_ID(item)) { __CPROVER_assert(g_fstat_ok == 1, "the identity looked up is the one fstat reported"); g_has_calls++; g_t_has = tick(); return g_in_table; }
+  if (IS_ID(item)) {
+    __CPROVER_assert(g_fstat_ok == 1 || (g_open_calls == 0 && g_stat_calls == 1), "the identity looked up is the one stat/fstat reported");
+    g_has_calls++; g_t_has = tick();
+    if (g_fstat_ok) g_has_fd++; else g_has_pre++;
+    return g_in_table;
+  }
   return nondet_int() ? 1 : 0;
 }
 int ldb_rb_set_put(rb_tree_t *tree, const void *item) {
@@ -133,29 +195,30 @@ void *ldb_rb_set_del(rb_tree_t *tree, const void *item) {
   return NULL;
 }
 
-#define LOCK_GHOST g_errno, g_in_table, g_os_locked, g_fm_held, g_fm_locks, g_fm_unlocks, g_open_calls, g_open_ok, g_fstat_calls, g_fstat_ok, \
-  g_setlk_calls, g_setlk_ok, g_unlk_calls, g_unlk_ok, g_closes, g_has_calls, g_puts, g_puts_other, g_dels, g_dels_other, g_mallocs, g_frees, \
-  g_eintr_budget, g_einval_budget, g_put_ptr, g_freed_ptr, g_clock, g_t_has, g_t_setlk, g_t_put, g_t_del, g_t_unlk, g_t_close
+#define LOCK_GHOST G
 
 /* table invariant: an identity in the table means this process holds the OS lock on that file */
 #define LOCK_INV (!g_in_table || g_os_locked)
 #define FRESH_COUNTERS (g_open_calls == 0 && g_open_ok == 0 && g_fstat_calls == 0 && g_fstat_ok == 0 && g_setlk_calls == 0 && g_setlk_ok == 0 && \
   g_unlk_calls == 0 && g_unlk_ok == 0 && g_closes == 0 && g_has_calls == 0 && g_puts == 0 && g_puts_other == 0 && g_dels == 0 && g_dels_other == 0 && \
-  g_mallocs == 0 && g_frees == 0 && g_clock == 0 && g_fm_held == 0 && g_fm_locks == g_fm_unlocks)
+  g_mallocs == 0 && g_frees == 0 && g_stat_calls == 0 && g_has_pre == 0 && g_has_fd == 0 && g_clock == 0 && g_fm_held == 0 && g_fm_locks == g_fm_unlocks)
 
 /* --------------------------------------------------------- ldb_lock_file */
 int c_lock_file(const char *filename, ldb_filelock_t **lock)
 __CPROVER_requires(__CPROVER_rw_ok(lock, sizeof(*lock)) && FRESH_COUNTERS && g_fd_new >= 0)
-__CPROVER_requires((g_in_table == 0 || g_in_table == 1) && (g_os_locked == 0 || g_os_locked == 1) && LOCK_INV)
+__CPROVER_requires((g_in_table == 0 || g_in_table == 1) && (g_os_locked == 0 || g_os_locked == 1) && (g_exists == 0 || g_exists == 1) && LOCK_INV)
+/* a file whose identity is in the table exists */
+__CPROVER_requires(!g_in_table || g_exists)
 __CPROVER_requires(g_eintr_budget <= 2 && g_einval_budget <= 1)
 __CPROVER_assigns(*lock, LOCK_GHOST)
 /* the file mutex is released on every path */
 __CPROVER_ensures(g_fm_held == 0 && g_fm_locks == g_fm_unlocks)
-/* exclusive within the process: an identity that is already in the table is refused */
-__CPROVER_ensures(__CPROVER_old(g_in_table) ==> __CPROVER_return_value != LDB_OK)
-/* OK: descriptor opened, identity read, looked up and absent, record lock taken (exclusive, whole file, non-blocking),
-   and only then the identity inserted - through the id stored in the returned lock object, which also keeps the descriptor */
-__CPROVER_ensures(__CPROVER_return_value == LDB_OK ==> (g_open_ok == 1 && g_fstat_ok == 1 && g_has_calls == 1 && !__CPROVER_old(g_in_table) &&
+/* exclusive within the process: a file that is already locked by this process is refused - WITHOUT opening it, so that the
+   holder's record lock survives the refused attempt */
+__CPROVER_ensures(__CPROVER_old(g_in_table) ==> (__CPROVER_return_value != LDB_OK && g_open_calls == 0 && g_closes == 0 && g_os_locked && g_in_table))
+/* OK: descriptor opened, identity read from the descriptor, looked up and absent, record lock taken (exclusive, whole file,
+   non-blocking), and only then the identity inserted - through the id stored in the returned lock object, which keeps the descriptor */
+__CPROVER_ensures(__CPROVER_return_value == LDB_OK ==> (g_open_ok == 1 && g_fstat_ok == 1 && g_has_fd == 1 && !__CPROVER_old(g_in_table) &&
    g_setlk_calls == 1 && g_setlk_ok == 1 && g_os_locked && g_in_table && g_puts == 1 && g_t_has < g_t_setlk && g_t_setlk < g_t_put))
 __CPROVER_ensures(__CPROVER_return_value == LDB_OK ==> (g_closes == 0 && g_unlk_calls == 0 && g_dels == 0 && g_frees == 0 && g_mallocs == 1 && *lock != NULL &&
    (*lock)->fd == g_fd_new && (*lock)->id.dev == g_dev && (*lock)->id.ino == g_ino && g_put_ptr == (const void *)&(*lock)->id))
@@ -163,10 +226,11 @@ __CPROVER_ensures(__CPROVER_return_value == LDB_OK ==> (g_closes == 0 && g_unlk_
 __CPROVER_ensures((g_open_ok == 0 || g_fstat_ok == 0 || g_setlk_ok == 0) ==> __CPROVER_return_value != LDB_OK)
 __CPROVER_ensures(__CPROVER_return_value != LDB_OK ==> (g_closes == g_open_ok && g_in_table == __CPROVER_old(g_in_table) && g_puts == 0 && g_puts_other == 0 &&
    *lock == __CPROVER_old(*lock) && g_mallocs == g_frees))
-/* a record lock taken by a failed attempt does not outlive it (there is no failure after the lock call; closing the descriptor drops it) */
-__CPROVER_ensures((__CPROVER_return_value != LDB_OK && !__CPROVER_old(g_in_table)) ==> !g_os_locked)
-/* the lock is requested only after the table said "absent" (a process never re-locks a file it has locked: POSIX would grant it) */
-__CPROVER_ensures(g_setlk_calls <= 1 && (g_setlk_calls == 1 ==> (g_has_calls == 1 && !__CPROVER_old(g_in_table))))
+/* a record lock taken by a failed attempt does not outlive it; the holder's lock is never lost */
+__CPROVER_ensures(__CPROVER_return_value != LDB_OK ==> g_os_locked == __CPROVER_old(g_in_table))
+/* the lock is requested only after the table said "absent" for the opened file (a process never re-locks a file it has locked:
+   POSIX would grant it) */
+__CPROVER_ensures(g_setlk_calls <= 1 && (g_setlk_calls == 1 ==> (g_has_fd == 1 && !__CPROVER_old(g_in_table))))
 __CPROVER_ensures(g_dels == 0 && g_dels_other == 0 && g_unlk_calls == 0)
 ;
 
